@@ -133,6 +133,10 @@ add("C08", "exploration",
 
 NOT_YET = {}
 
+# properties whose check also runs the coverage-guided stage (DESIGN.md 10.6)
+FUZZ = ["C01", "C02", "C03", "C04", "C05", "C06", "C07", "C08", "C10", "C11", "C12", "C13", "C14", "C15", "C17", "C18", "C19", "C20"]
+FUZZ_BYTE_LEVEL = {"C03", "C06", "C08", "C10", "C11", "C12", "C13", "C17", "C19"}
+
 def main():
     props = [json.loads(l) for l in open(os.path.join(VERIF, "properties.jsonl"))]
     ids = [p["id"] for p in props]
@@ -150,7 +154,7 @@ def main():
             "engine": c["engine"],
             "level_claimed": {"category": c["category"], "text": c["text"], "design_ref": c["ref"]},
             "level_note": c["note"],
-            "technique": c["technique"],
+            "technique": c["technique"] + ("" if pid not in FUZZ else "; followed by a coverage-guided libFuzzer stage with the same oracle inside the target (" + ("byte-level inputs" if pid in FUZZ_BYTE_LEVEL else "decoded or strategy-drawn cases") + ", 8 x 20 000 executions quick, 16 x 300 000 thorough)"),
         })
     not_applicable = [{"property_id": pid, "reason": NOT_YET.get(pid, "check not built yet in this round (planned, see DESIGN.md section 4); not claimed until its check is committed")} for pid in ids if pid not in CHECKS]
     hook_commits = []
@@ -175,6 +179,8 @@ def main():
         "engines": [
             {"name": "rustc-batch", "path": "/verif/c09", "serves_properties": ["C09"],
              "kind_free_text": "generated crate of sexp! invocations compiled by cargo/rustc against /repo's working tree; orchestrated by the vp binary (harness/src/props/c09.rs)"},
+            {"name": "libfuzzer-stage", "path": "/verif/harness/fuzz", "serves_properties": FUZZ,
+             "kind_free_text": "one libFuzzer target (sancov instrumentation, built by ./check with cargo +nightly from /repo's working tree, no cargo-fuzz, no ASan) that dispatches every input to the property's own check function (harness/src/fuzz_entry.rs); started by `vp run` after the proptest part, fixed number of executions, crash inputs are re-run through the oracle in the ordinary build and become ordinary replay files"},
             {"name": "proptest-harness", "path": "/verif/harness", "serves_properties": sorted(k for k in CHECKS.keys() if k != "C09"),
              "kind_free_text": "Rust binary `vp` (proptest 1.11 TestRunner with fixed seeds, shrinking, rayon-parallel exhaustive enumerators, child processes for stack/abort observation); driver /verif/check builds it against /repo's working tree in two feature configurations and merges evidence"},
         ],
